@@ -16,7 +16,7 @@ import (
 // C02 broker role: the broker as receiver of QoS 1/2 publishes.
 
 type C02Op struct {
-	K      string `json:"k"` // pub1 pub2 rel duprel filler ping
+	K      string `json:"k"` // pub1 pub2 rel duprel filler ping reconnect
 	ID     uint16 `json:"id,omitempty"`
 	Sys    bool   `json:"sys,omitempty"` // pub1/pub2: the topic starts with '$' (nobody can receive it; it must be acknowledged like any other)
 	Dup    bool   `json:"dup,omitempty"` // pub2: the first copy of the exchange already carries DUP=1 (a retransmission whose original was lost)
@@ -58,7 +58,8 @@ func runC02(c C02Case) (res c02result) {
 	if _, err := S.Connect(wire.ConnectPacket("sub", true, 120)); err != nil {
 		return c02result{Fail: "subscriber connect: " + err.Error()}
 	}
-	if _, err := P.Connect(wire.ConnectPacket("pub", true, 120)); err != nil {
+	// the publisher's session is persistent: a QoS 2 exchange may be continued on a later connection
+	if _, err := P.Connect(wire.ConnectPacket("pub", false, 120)); err != nil {
 		return c02result{Fail: "publisher connect: " + err.Error()}
 	}
 	S.Send(&codec.Packet{Type: codec.SUBSCRIBE, PacketID: 1, Topics: [][]byte{[]byte("t/#")}, QoSs: []byte{2}})
@@ -153,6 +154,24 @@ func runC02(c C02Case) (res c02result) {
 			if op.Volume >= 16384 && len(open) > 0 {
 				cls["ring-of-filler-between-publish-and-pubrel"] = true
 			}
+		case "reconnect":
+			// the publisher's connection drops and the client comes back with CleanSession=0:
+			// exchanges that were open stay open
+			P.Close()
+			if !P.WaitTeardown(wire.DefaultWait) {
+				return c02result{Fail: fmt.Sprintf("%s: teardown of the publisher's dropped connection did not finish", where)}
+			}
+			P = b.Dial("P")
+			ack, err := P.Connect(wire.ConnectPacket("pub", false, 120))
+			if err != nil || ack.ReturnCode != 0 {
+				return c02result{Fail: fmt.Sprintf("%s: publisher reconnect: %v %v", where, ack, err)}
+			}
+			if !ack.SessionPresent {
+				return c02result{Fail: fmt.Sprintf("%s: the publisher's persistent session was not resumed (SessionPresent=0)", where)}
+			}
+			if len(open) > 0 {
+				cls["reconnect-with-open-exchanges"] = true
+			}
 		case "ping":
 		}
 		prx, err := P.Barrier()
@@ -245,6 +264,8 @@ func genC02(t *rapid.T) C02Case {
 			c.Ops = append(c.Ops, C02Op{K: "duprel", ID: id})
 		case k == 10:
 			c.Ops = append(c.Ops, C02Op{K: "filler", Volume: rapid.SampledFrom([]int{8000, 20000, 50000}).Draw(t, "vol")})
+		case k == 11 && rapid.Bool().Draw(t, "reconnect"):
+			c.Ops = append(c.Ops, C02Op{K: "reconnect"})
 		default:
 			c.Ops = append(c.Ops, C02Op{K: "ping"})
 		}
@@ -272,7 +293,7 @@ func TestC02Broker(t *testing.T) {
 		r := runC02(c)
 		nt := false
 		for _, cl := range r.Classes {
-			if cl == "dup-publish-before-pubrel" || cl == "duplicate-pubrel-after-pubcomp" || cl == "ring-of-filler-between-publish-and-pubrel" {
+			if cl == "dup-publish-before-pubrel" || cl == "duplicate-pubrel-after-pubcomp" || cl == "ring-of-filler-between-publish-and-pubrel" || cl == "reconnect-with-open-exchanges" {
 				nt = true
 			}
 		}
